@@ -38,6 +38,12 @@ type profile struct {
 	goStmts    bool
 	strict     bool // refuse select / send statements
 	recvObj    bool // report the method receiver as the step's object (vsched.YO)
+	// yieldStmt: statements (matched on the first line of their printed form) that get a scheduling point
+	// of their own in front of them: `vsched.Yield("fn:stmt:<first line>")`
+	yieldStmt []*regexp.Regexp
+	// selectTimer: `select { case <-ch: A; case <-time.After(d): B }` with ch matching recvClosed becomes
+	// `switch vsched.SelectClosedOrTimer(ch, d, "fn:select:ch") { case 0: A; case 1: B }`
+	selectTimer bool
 }
 
 func rx(ps ...string) []*regexp.Regexp {
@@ -63,9 +69,10 @@ var profiles = map[string]profile{
 		recvObj: true,
 	},
 	"future": {
-		// future.go: CAS/Load of closed, closer(), one Tell per forwarder; context.go (func ask): NewFuture, appendFuture
+		// future.go: CAS/Load of closed, closer(), one Tell per forwarder, and in PipeTo the point between the read of
+		// f.forwarders (receiver of .Unique) and its write; context.go (func ask): NewFuture, appendFuture
 		wrap: rx(`^atomic\.`, `\.closed\.(Load|CompareAndSwap|Store)$`, `^f\.closer$`, `^f\.liaison\.Tell$`,
-			`^future\.NewFuture\[vivid\.Message\]$`, `^c\.system\.appendFuture$`),
+			`^future\.NewFuture\[vivid\.Message\]$`, `^c\.system\.appendFuture$`, `^append\(f\.forwarders, .*\)\.Unique$`),
 		assign:     rx(`^f\.(err|message)$`),
 		locks:      rx(`\.mu$`),
 		recvClosed: rx(`\.done$`),
@@ -73,6 +80,18 @@ var profiles = map[string]profile{
 		timers:     true,
 		goStmts:    true,
 		strict:     true,
+	},
+	// System.Start / Stop / stop and the start-up chain (system.go, system_chains.go): statusLock, the
+	// context-guard goroutine, the unsynchronised reads of s.Context / s.clusterContext, Kill(root), cancel,
+	// the select on guardClosedSignal / time.After, scheduler.Stop
+	"system": {
+		wrap:        rx(`^s\.cancel$`, `^s\.Context\.Kill$`, `^s\.scheduler\.Stop$`, `^s\.clusterContext\.Leave$`),
+		locks:       rx(`^s\.statusLock$`),
+		recvClosed:  rx(`^s\.options\.Context\.Done\(\)$`, `^s\.guardClosedSignal$`),
+		yieldStmt:   rx(`^system\.Context, err = NewContext\(`, `^if s\.Context != nil \{`, `^if s\.clusterContext != nil \{`, `^if system\.options\.Metrics != nil \{`),
+		selectTimer: true,
+		goStmts:     true,
+		strict:      true,
 	},
 }
 
@@ -222,8 +241,12 @@ func (r *rewriter) stmt(s ast.Stmt) ast.Stmt {
 			for i := range x.Call.Args {
 				x.Call.Args[i] = r.expr(x.Call.Args[i])
 			}
+			label := r.fn + ":go:" + firstLine(show(x.Call.Fun))
+			if fl, ok := x.Call.Fun.(*ast.FuncLit); ok { // `go func() {...}()`: the body is code under test too
+				x.Call.Fun = r.expr(fl)
+			}
 			body := &ast.BlockStmt{List: []ast.Stmt{&ast.ExprStmt{X: x.Call}}}
-			return &ast.ExprStmt{X: &ast.CallExpr{Fun: sel("vsched", "Go"), Args: []ast.Expr{lit(r.fn + ":go:" + show(x.Call.Fun)), &ast.FuncLit{Type: &ast.FuncType{Params: &ast.FieldList{}}, Body: body}}}}
+			return &ast.ExprStmt{X: &ast.CallExpr{Fun: sel("vsched", "Go"), Args: []ast.Expr{lit(label), &ast.FuncLit{Type: &ast.FuncType{Params: &ast.FieldList{}}, Body: body}}}}
 		}
 	case *ast.DeferStmt:
 		if c, ok := r.expr(x.Call).(*ast.CallExpr); ok {
@@ -276,6 +299,11 @@ func (r *rewriter) stmt(s ast.Stmt) ast.Stmt {
 			}
 		}
 	case *ast.SelectStmt:
+		if r.p.selectTimer {
+			if sw := r.selectTimer(x); sw != nil {
+				return sw
+			}
+		}
 		if r.p.strict {
 			r.fail = append(r.fail, r.fn+": select statement is not supported by the instrumenter")
 		}
@@ -293,9 +321,78 @@ func (r *rewriter) block(b *ast.BlockStmt) {
 	if b == nil {
 		return
 	}
-	for i := range b.List {
-		b.List[i] = r.stmt(b.List[i])
+	if len(r.p.yieldStmt) == 0 {
+		for i := range b.List {
+			b.List[i] = r.stmt(b.List[i])
+		}
+		return
 	}
+	var out []ast.Stmt
+	for _, st := range b.List {
+		first := firstLine(show(st))
+		if matches(r.p.yieldStmt, first) {
+			r.count++
+			out = append(out, &ast.ExprStmt{X: &ast.CallExpr{Fun: sel("vsched", "Yield"), Args: []ast.Expr{lit(r.fn + ":stmt:" + first)}}})
+		}
+		out = append(out, r.stmt(st))
+	}
+	b.List = out
+}
+
+func firstLine(s string) string {
+	for i := 0; i < len(s); i++ {
+		if s[i] == '\n' {
+			return s[:i]
+		}
+	}
+	return s
+}
+
+// selectTimer rewrites the two-way select on a closed-only channel and time.After (see profile.selectTimer);
+// nil if the statement does not have that shape.
+func (r *rewriter) selectTimer(x *ast.SelectStmt) ast.Stmt {
+	if len(x.Body.List) != 2 {
+		return nil
+	}
+	var chExpr, durExpr ast.Expr
+	var bodies [2][]ast.Stmt
+	for _, c := range x.Body.List {
+		cc, ok := c.(*ast.CommClause)
+		if !ok || cc.Comm == nil {
+			return nil
+		}
+		es, ok := cc.Comm.(*ast.ExprStmt)
+		if !ok {
+			return nil
+		}
+		u, ok := es.X.(*ast.UnaryExpr)
+		if !ok || u.Op != token.ARROW {
+			return nil
+		}
+		if call, ok := u.X.(*ast.CallExpr); ok && show(call.Fun) == "time.After" && len(call.Args) == 1 {
+			durExpr = call.Args[0]
+			bodies[1] = cc.Body
+		} else if matches(r.p.recvClosed, show(u.X)) {
+			chExpr = u.X
+			bodies[0] = cc.Body
+		} else {
+			return nil
+		}
+	}
+	if chExpr == nil || durExpr == nil {
+		return nil
+	}
+	r.count++
+	for k := range bodies {
+		for i := range bodies[k] {
+			bodies[k][i] = r.stmt(bodies[k][i])
+		}
+	}
+	tag := &ast.CallExpr{Fun: sel("vsched", "SelectClosedOrTimer"), Args: []ast.Expr{chExpr, durExpr, lit(r.fn + ":select:" + show(chExpr))}}
+	mk := func(v string, body []ast.Stmt) ast.Stmt {
+		return &ast.CaseClause{List: []ast.Expr{&ast.BasicLit{Kind: token.INT, Value: v}}, Body: body}
+	}
+	return &ast.SwitchStmt{Tag: tag, Body: &ast.BlockStmt{List: []ast.Stmt{mk("0", bodies[0]), mk("1", bodies[1])}}}
 }
 
 func main() {
